@@ -95,6 +95,18 @@ type Decl struct {
 	Output   Spelling `json:"output"`
 	Num      int      `json:"num"`
 	Opts     []OptUse `json:"opts"`
+
+	// Extended attributes (spec/ProtoValid.tla), rendered only in files with X = true.
+	Label  string   `json:"label,omitempty"`  // "" | optional | required | repeated
+	Scalar string   `json:"scalar,omitempty"` // scalar type when Type is no reference ("" = int32)
+	MapKey string   `json:"mapkey,omitempty"` // key type of map<key, T>; "" = not a map
+	Dflt   string   `json:"dflt,omitempty"`   // default value as written (hi is rendered "hi" for string / bytes)
+	Json   string   `json:"json,omitempty"`   // explicit json_name
+	XR     [][2]int `json:"xr,omitempty"`     // extension ranges, inclusive
+	RR     [][2]int `json:"rr,omitempty"`     // reserved ranges, inclusive
+	RN     []string `json:"rn,omitempty"`     // reserved names
+	CS     bool     `json:"cs,omitempty"`     // client streaming
+	SS     bool     `json:"ss,omitempty"`     // server streaming
 }
 
 type Import struct {
@@ -110,6 +122,10 @@ type File struct {
 	Decls   []Decl   `json:"decls"`
 	Opts    []OptUse `json:"opts"`
 	Builtin bool     `json:"builtin"`
+	// X selects the explicit conventions of spec/ProtoValid.tla: labels, scalar types, enum value
+	// numbers, extension / reserved ranges exactly as given in the case (no implicit `optional`,
+	// no implicit `extensions 1000 to 1999`, no positional enum numbers).
+	X bool `json:"x,omitempty"`
 }
 
 // Workspace is a sequence of files; file indices in cases are 1-based like in the spec.
@@ -248,6 +264,9 @@ func (w Workspace) Clone() Workspace {
 			d := &f.Decls[j]
 			d.Type, d.Extendee, d.Input, d.Output = cloneSp(d.Type), cloneSp(d.Extendee), cloneSp(d.Input), cloneSp(d.Output)
 			d.Opts = cloneOpts(d.Opts)
+			d.XR = append([][2]int(nil), d.XR...)
+			d.RR = append([][2]int(nil), d.RR...)
+			d.RN = append([]string(nil), d.RN...)
 		}
 		out[i] = f
 	}
